@@ -637,6 +637,57 @@ def b_validate_step(S):
         slice_from="ignore_geom = False", default_num="Nat", join="tuple")
 
 
+def standalone(source, qual, subs=()):
+    """source text of method/function `qual` as a top-level function (dedented, decorators dropped) after regex substitutions"""
+    import textwrap
+
+    fn = find_func(ast.parse(source), qual)
+    lines = source.split("\n")[fn.lineno - 1: fn.end_lineno]
+    txt = textwrap.dedent("\n".join(lines))
+    for pat, rep in subs:
+        txt = re.sub(pat, rep, txt)
+    return txt
+
+
+def b_underlap_validator(S):
+    """`UnderlappingSnapValidator.validation_method`: both loops, the well-snapped skip, the window test, the three writes of the
+    class attribute ERROR (threaded as an explicit state value), `return False` after the first hit. Distances, the
+    underlap/overlap decision and `overlaps` are parameters."""
+    tree = ast.parse(S[TVALS])
+    cls = find_func(tree, "UnderlappingSnapValidator")
+    under, over = _class_attr(cls, "_UNDERLAPPING"), _class_attr(cls, "_OVERLAPPING")
+    stacked = _class_attr(find_func(tree, "StackedTracesValidator"), "ERROR")
+    if not all(isinstance(x, ast.Constant) and isinstance(x.value, str) for x in (under, over, stacked)):
+        raise Untranslatable("UnderlappingSnapValidator string constants")
+    src = standalone(S[TVALS], "UnderlappingSnapValidator.validation_method", [
+        (r"\bcls\.ERROR\b", "cls_ERROR"),
+        (r"return (True|False)\b", r"return \1, cls_ERROR"),
+    ])
+    if src.count("cls_ERROR =") != 3 or src.count(", cls_ERROR") != 3:
+        raise Untranslatable("UnderlappingSnapValidator: expected 3 writes of cls.ERROR and 3 returns")
+    C = {
+        "get_trace_endpoints(geom)": "(endpoints_of geom)",
+        "any(trace_candidates.distance(endpoint) < snap_threshold)": "(List.any trace_candidates (fun tc => decide (dist tc endpoint < snap_threshold)))",
+        "trace_candidates.geometry.values": "trace_candidates",
+        "trace.distance(endpoint)": "(dist trace endpoint)",
+        "is_underlapping(geom, trace, endpoint, snap_threshold, snap_threshold_error_multiplier)": "(is_ul geom trace endpoint)",
+        "geom.overlaps(trace)": "(overlaps geom trace)",
+        "StackedTracesValidator.ERROR": '"' + stacked.value + '"',
+        "cls._UNDERLAPPING": '"' + under.value + '"',
+        "cls._OVERLAPPING": '"' + over.value + '"',
+    }
+    T = {"get_trace_endpoints(geom)": "List P", "endpoints": "List P", "trace_candidates.geometry.values": "List L", "trace.distance(endpoint)": "Rat",
+         "any(trace_candidates.distance(endpoint) < snap_threshold)": "Bool", "geom.overlaps(trace)": "Bool",
+         "is_underlapping(geom, trace, endpoint, snap_threshold, snap_threshold_error_multiplier)": "Option Bool", "is_ul_result": "Option Bool",
+         "StackedTracesValidator.ERROR": "String", "cls._UNDERLAPPING": "String", "cls._OVERLAPPING": "String", "cls_ERROR": "String"}
+    return translate_function(
+        src, "validation_method", "underlap_validation",
+        {"geom": "L", "trace_candidates": "List L", "snap_threshold": "Rat", "snap_threshold_error_multiplier": "Rat", "cls_ERROR": "String"},
+        "Bool × String", C, types=T, raises=True,
+        extra_params=[("{L}", "Type"), ("{P}", "Type"), ("endpoints_of", "L → List P"), ("dist", "L → P → Rat"), ("is_ul", "L → L → P → Option Bool"), ("overlaps", "L → L → Bool")],
+        slice_from="if len(trace_candidates) == 0", default_num="Rat", join="tuple")
+
+
 def b_validation_defaults(S):
     tree = ast.parse(S[TVAL])
     cls = find_func(tree, "Validation")
@@ -919,6 +970,7 @@ ITEMS: List[Item] = [
     Item("JunctionShift", GENERAL, ["C02", "C16"], b_junction_shift),
     Item("ValidatorTable", TVALS, ["C09", "C13", "C02"], b_validator_table, extra_modules=[TVAL]),
     Item("ValidateStep", TVAL, ["C09", "C13"], b_validate_step),
+    Item("UnderlapValidator", TVALS, ["C10", "C13"], b_underlap_validator),
     Item("ValidationDefaults", TVAL, ["C10", "C03", "C16"], b_validation_defaults),
     Item("CacheDecorated", GENERAL, ["C17"], b_cache_decorated, extra_modules=[m for m in ALL_MODULES if m != GENERAL]),
     Item("Grid", GRID, ["C18"], b_grid),
